@@ -114,6 +114,26 @@ def interpolate_modes_roles(model: Model):
 ROLE_VALUE = {0: FREQ * U.UNIT_TABLE["cm"], 1: GAMMA, 2: VDR}
 
 
+def qha_attr_hook(ev, obj, name):
+    """any other attribute of the installed qha Calculator becomes its own atom QHA_<name>
+    (so a wrong attribute shows up as a residual); a name the installed class does not define
+    is an error the caller reports"""
+    if QHA_EXT not in ([obj.cls] + ev.model.mro(obj.cls) if not obj.cls.startswith("ext:") else [obj.cls]):
+        return NotImplemented
+    from .libsum import qha_calculator_members
+    owner, f, kind = (None, None, None) if obj.cls.startswith("ext:") else ev.model.find_member(obj.cls, name)
+    if f is not None:
+        return NotImplemented
+    members = qha_calculator_members()
+    if name in members and members[name] in ("property", "lazy"):
+        return sp.Symbol(f"QHA_{name}", real=True)
+    if name in members:
+        return NotImplemented
+    if name.startswith("_"):
+        return NotImplemented
+    raise AnalysisError(f"missing-qha-attribute:{name}")
+
+
 def physics_seeds(model: Model, pstat_atom=True):
     roles, _ = interpolate_modes_roles(model)
     ext = Obj(QHACALC, label="qha calculator")
